@@ -456,8 +456,9 @@ class Store:
             self.topology,
             source=self.path_for())
 
-        # cache the process's view
-        self.topology_view = self.schema_topology(
+        # cache the process's view (ports are wired relative to the
+        # store that holds the process, as in build_topology_views())
+        self.topology_view = self.outer.schema_topology(
             self.value.schema,
             self.topology)
 
